@@ -67,7 +67,7 @@ def fmtErr : Err → String
   | .scalingMismatch => "scalingMismatch" | .allOutOfBounds => "allOutOfBounds" | .emptyClassify => "emptyClassify"
   | .lengthMismatch => "lengthMismatch" | .nothingToEvaluate => "nothingToEvaluate" | .divZero => "divZero"
   | .emptyLearning => "emptyLearning" | .invalidRange => "invalidRange" | .twice => "twice"
-  | .badSplitInput => "badSplitInput" | .indexError1D => "indexError1D"
+  | .badSplitInput => "badSplitInput"
 
 /-- the density oracle of the run: the rows read from the implementation, keyed by exact scaled position -/
 def densOf (table : List (Pt × List Rat)) (c : Nat) (p : Pt) : Rat :=
